@@ -473,9 +473,18 @@ void RealVisitor::bvisit(const Constant &x)
 
 void RealVisitor::bvisit(const Add &x)
 {
+    unsigned non_real = 0;
     tribool b = tribool::tritrue;
     for (const auto &arg : x.get_args()) {
         arg->accept(*this);
+        if (is_false(is_real_)) {
+            // the imaginary parts of two non-real terms may cancel
+            non_real++;
+            if (non_real > 1) {
+                is_real_ = tribool::indeterminate;
+                return;
+            }
+        }
         b = andwk_tribool(b, is_real_);
         if (is_indeterminate(b)) {
             break;
